@@ -300,6 +300,18 @@ def dtfromOracles (z : TimeZone) (u ns : Int) (rhs : List String) : Verdicts :=
      ("C03.local_date_time_type" ++ tag, zoneExpect z u == .type d.localTimeType)]
   | none => [("C03.answer_shape", false)]
 
+/-- projection of a date-time written as fields under offset `off` (second 60 allowed) into a zone: the result is
+    the zone's date-time at the instant the fields denote — never a copy of the source fields -/
+def projectOracles (z : TimeZone) (y mo d h mi s ns off : Int) (rhs : List String) : Verdicts :=
+  if isErr rhs then [] else
+  match dt? rhs with
+  | some x =>
+    let u := seconds y mo d h mi s - off
+    [("C03.local_date_time_is_instant_plus_offset", x.unixTime == u && x.nanoseconds == ns && dtInv x && decide (x.second ≤ 59)),
+     ("C03.local_date_time_type" ++ kfTag z, zoneExpect z u == .type x.localTimeType),
+     ("C14.projection_keeps_the_instant", x.unixTime == u && x.nanoseconds == ns)]
+  | none => [("C03.answer_shape", false)]
+
 /-- zoned date-time from total nanoseconds: the pair is (floor seconds, remainder) and the type is the
     zone's type at the floor second -/
 def dtfromtnOracles (z : TimeZone) (n : Int) (rhs : List String) : Verdicts :=
@@ -417,7 +429,14 @@ def findnOracles (_z : TimeZone) (n : Nat) (_f _stale : Int × Int × Int × Int
            ("C17.exhaustive_iff_fits", (exh == "1") == decide (n ≥ k)),
            ("C17.data_is_prefix", dl == toString m),
            ("C17.buffer_prefix_then_untouched", buf == expectedBuf),
-           ("C17.accessors_agree_when_exhaustive", n < k || String.intercalate " " acc == accessors)]
+           ("C17.accessors_agree_when_exhaustive", n < k || String.intercalate " " acc == accessors),
+           -- C06 on the buffer list itself: the accessors are the extremes of the results it holds (its own
+           -- written prefix), whatever the rest of the buffer contains
+           ("C06.buffer_accessors_are_extremes_of_own_results",
+              n < k ||
+              (let own := (buf.take m).filterMap id
+               String.intercalate " " acc ==
+                 s!"U {showOpt (listUnique own)} E {showOpt (listEarliest own)} X {showOpt (listLatest own)}"))]
         | .error _ => [("C17.answer_shape", false)]
       | _, _, _ => [("C17.answer_shape", false)]
   | _ => []   -- line without the companion answers (older corpus): nothing to compare
